@@ -1,7 +1,7 @@
 (* C13 -- property theorems only.  Proofs live in C13/Proofs*.v. *)
 From Coq Require Import NArith List Sorted.
 From DV Require Import Base.Outcome Base.Bytes Base.Lex Base.Names C11.Sha C13.Gen C13.Model
-  C13.ProofsBitmap C13.ProofsNames C13.ProofsNsec2 C13.ProofsDeny C13.ProofsGroups C13.ProofsN3c C13.ProofsN3d C13.ProofsN3e C13.ProofsN3f C13.ProofsDedup C13.ProofsTtl C13.ModelLabel C13.ProofsLabel C13.ProofsIter C13.ProofsTtl3.
+  C13.ProofsBitmap C13.ProofsNames C13.ProofsNsec2 C13.ProofsDeny C13.ProofsGroups C13.ProofsN3c C13.ProofsN3d C13.ProofsN3e C13.ProofsN3f C13.ProofsDedup C13.ProofsTtl C13.ModelLabel C13.ProofsLabel C13.ProofsIter C13.ProofsTtl3 C13.ProofsOrder.
 Import ListNotations.
 Local Open Scope N_scope.
 
@@ -131,10 +131,10 @@ Theorem C13_nsec_no_panic_uniform_ttl : forall apex dk z,
 Proof. exact nsec_t_no_panic. Qed.
 Print Assumptions C13_nsec_no_panic_uniform_ttl.
 
-Theorem C13_nsec_mixed_ttl_rrset_panics :
-  exists apex dk z, zone_sorted (map trec_strip z) /\ generate_nsecs_t apex dk z = Panic 7.
+Theorem C13_nsec_mixed_ttl_rrset_panics_refuted : rrset_new_expects_ttls = true ->
+  exists apex dk z, zone_sorted (map trec_strip z) /\ ~ rrset_ttls_uniform z /\ generate_nsecs_t apex dk z = Panic 7.
 Proof. exact nsec_mixed_ttl_rrset_panics. Qed.
-Print Assumptions C13_nsec_mixed_ttl_rrset_panics.
+Print Assumptions C13_nsec_mixed_ttl_rrset_panics_refuted.
 
 Theorem C13_sorted_records_sorted_and_complete : forall l,
   zone_sorted (strip (sorted_records l)) /\
@@ -173,3 +173,34 @@ Theorem C13_nsec3_ttl_class_from_soa : forall H apex c m z o, generate_nsec3s_t 
      o_param_ttl o = match m with PFixed t => t | PSoa => t_ttl s | PSoaMin => t_min s end).
 Proof. exact nsec3_t_ttl_class. Qed.
 Print Assumptions C13_nsec3_ttl_class_from_soa.
+
+Theorem C13_nsec3_ttl_model_no_panic : forall H apex c m z,
+  zone_sorted (map trec_strip z) -> rrset_ttls_uniform z -> no_panic (generate_nsec3s_t H apex c m z).
+Proof. exact nsec3_t_no_panic. Qed.
+Print Assumptions C13_nsec3_ttl_model_no_panic.
+
+Theorem C13_nsec3param_record : forall H apex c m z o, generate_nsec3s_t H apex c m z = Ok o ->
+  exists s, In s z /\ t_type s = 6 /\
+    nsec3param_record apex c o =
+      (apex, 1, match m with PFixed t => t | PSoa => t_ttl s | PSoaMin => t_min s end,
+       (c_alg c, c_flags c, c_iters c, c_salt c)).
+Proof. exact nsec3param_record_spec. Qed.
+Print Assumptions C13_nsec3param_record.
+
+Theorem C13_bitmap_reparses : forall ts, Forall (fun x => x < 65536) ts ->
+  bm_from_octets (bm_finalize (bm_adds [] ts)) = Ok tt.
+Proof. exact bitmap_reparses. Qed.
+Print Assumptions C13_bitmap_reparses.
+
+Theorem C13_sorted_records_class : forall l,
+  StronglySorted (fun a b => fst a <= fst b) (cr_sort l) /\
+  (forall k, Forall (fun x => fst x = k) l -> map snd (sorted_records_c l) = sorted_records (map snd l)).
+Proof. intros l. split; [exact (cr_sort_class_sorted l)|intros k; exact (sorted_records_one_class k l)]. Qed.
+Print Assumptions C13_sorted_records_class.
+
+Theorem C13_nsec3_owner_order : forall n h1 h2 apex, length h1 = (5 * n)%nat -> length h2 = (5 * n)%nat ->
+  Forall (fun b => b < 256) h1 -> Forall (fun b => b < 256) h2 ->
+  exists o1 o2, nsec3_owner_name h1 apex = Ok o1 /\ nsec3_owner_name h2 apex = Ok o2 /\
+    name_cmp o1 o2 = lex_cmp h1 h2.
+Proof. exact nsec3_owner_order. Qed.
+Print Assumptions C13_nsec3_owner_order.
